@@ -4,6 +4,7 @@ CONSTANTS
   Kinds <- KindsN
   MaxT = 1
   Variant = "tensor_diag_only"
+  Srcs = "few"
 INVARIANT TypeOK
 INVARIANT PermInv
 INVARIANT PermBijective
